@@ -163,7 +163,8 @@ def observed_run(roots: List[str], out: str, docformat: str, W: bool, timeout: i
             if not o.isVisible:
                 return
             if o.documentation_location is M.DocLocation.OWN_PAGE:
-                u = o.url.split("#")[0]
+                from urllib.parse import unquote
+                u = unquote(o.url.split("#")[0])          # the page is written under the name its url designates
                 if not (outp / u).exists():
                     problems.append(f"MissingPage:{o.fullName()}")
             for c in o.contents.values():
@@ -186,7 +187,9 @@ def _worker(job: Dict[str, Any]) -> Dict[str, Any]:
         for rel, content in job["files"].items():
             p = src / rel if roots else src / "pk" / rel
             p.parent.mkdir(parents=True, exist_ok=True)
-            if isinstance(content, str):
+            if isinstance(content, dict) and "symlink" in content:
+                os.symlink(content["symlink"], p)
+            elif isinstance(content, str):
                 p.write_text(content, encoding="utf-8", errors="surrogateescape")
             else:
                 p.write_bytes(bytes(content))
@@ -345,9 +348,20 @@ def kf_deep_expression(w: Dict[str, Any]) -> bool:
     return any(isinstance(t, str) and ast_depth(t) >= 300 for t in w["job"]["files"].values())
 
 
+def kf_import_chain(w: Dict[str, Any]) -> bool:
+    """Known finding: a chain of more than ~100 modules each importing the next one is analysed recursively
+    (getProcessedModule -> processModule -> ...), so the interpreter's recursion limit is reached."""
+    import re
+    if not w.get("exception", "").startswith("RecursionError"):
+        return False
+    chain = sum(1 for t in w["job"]["files"].values() if isinstance(t, str) and re.match(r"from \.\w+ import \w+\n", t))
+    return chain >= 100
+
+
 def run(ctx: Ctx) -> int:
     rng = random.Random(ctx.seed)
     ctx.register_matcher("expression-nested-deeper-than-recursion-limit", kf_deep_expression)
+    ctx.register_matcher("import-chain-deeper-than-recursion-limit", kf_import_chain)
     # ---- spec -> code
     r = ctx.tlc("Lifecycle", CFG_ENUM.format(maxn=2 if ctx.quick else 3), workers="auto", check=True, coverage=ctx.quick, timeout=1800)
     ctx.extra["design_level"] = {"violated": r.violated}
@@ -389,10 +403,10 @@ def run(ctx: Ctx) -> int:
         traces.append({"n": max(o["n"], 1), "W": o["W"], "ev": o["ev"]})
     ctx.extra["random_runs"] = stats
     # ---- adversarial corpus (hand-written seams), every case under several docformats
-    from .. import adversarial
+    from .. import adversarial, adversarial2
     fmts = ["epytext", "restructuredtext", "google"] if ctx.quick else DOCFORMATS
     ajobs = [{"kind": "adversarial:" + c["name"], "files": c["files"], "roots": c["roots"], "docformat": f, "W": (i % 2 == 1), "id": i}
-             for c in adversarial.cases() for i, f in enumerate(fmts)]
+             for c in adversarial.cases() + adversarial2.cases2() for i, f in enumerate(fmts)]
     aouts = run_jobs(ctx, ajobs)
     astats = {"runs": 0, "exceptions": 0}
     for o in aouts:
